@@ -29,10 +29,20 @@ import (
 	"verif/instrument"
 )
 
-const (
-	verifDir = "/verif"
-	repoDir  = "/repo"
+// verifDir and repoDir default to /verif and /repo; VERIF_DIR and VERIF_REPO
+// override them (background sweeps run from a snapshot of /verif against a
+// snapshot of /repo). Registered checks always use the defaults.
+var (
+	verifDir = envOr("VERIF_DIR", "/verif")
+	repoDir  = envOr("VERIF_REPO", "/repo")
 )
+
+func envOr(k, d string) string {
+	if v := os.Getenv(k); v != "" {
+		return v
+	}
+	return d
+}
 
 type checkSpec struct {
 	Prop     string
